@@ -180,5 +180,576 @@ theorem algebraic_trichotomy3 (vk : VK F) (z : F) (π : Proof F) (r : Run F) (P 
       by_contra hne
       exact hcon ⟨i, hne⟩)
 
+/-! ### the combined commitment and the combined value of an arbitrary statement -/
+
+/-- the representation of one commitment over `(G, s)`: plain part `⟨p, G⟩ + ρ·s`, shifted part
+`⟨q, G⟩ + ρ'·s` (`q`, `ρ'` are not looked at for a commitment without degree bound) -/
+structure CRep (F : Type) where
+  p : List F
+  ρ : F
+  q : List F
+  ρ' : F
+  deriving DecidableEq, Repr
+
+/-- `x` represents the commitment `c` -/
+def CommRep (G : List F) (s : F) (c : LComm F) (x : CRep F) : Prop :=
+  c.comm.comm = dot G x.p + s * x.ρ ∧
+    (c.comm.shifted = none ∨ c.comm.shifted = some (dot G x.q + s * x.ρ'))
+
+/-- position by position, `xs` represents the commitments `cs` -/
+def AllCommRep (G : List F) (s : F) : List (LComm F) → List (CRep F) → Prop
+  | c :: cs, x :: xs => CommRep G s c x ∧ AllCommRep G s cs xs
+  | [], [] => True
+  | _, _ => False
+
+theorem AllCommRep.length_eq (G : List F) (s : F) :
+    ∀ (cs : List (LComm F)) (xs : List (CRep F)), AllCommRep G s cs xs → cs.length = xs.length := by
+  intro cs
+  induction cs with
+  | nil => intro xs h; cases xs with
+    | nil => rfl
+    | cons x xs => exact absurd h (by simp [AllCommRep])
+  | cons c cs ih => intro xs h; cases xs with
+    | nil => exact absurd h (by simp [AllCommRep])
+    | cons x xs => simp only [List.length_cons, ih xs h.2]
+
+/-- the `G`-coefficients one position contributes to the combined commitment: `ξ·p` (+ `ξ′·q` under a bound) -/
+def stepG (c : LComm F) (x : CRep F) (ξ ξ' : F) : List F :=
+  match c.bound with
+  | some _ => padd (pscale ξ x.p) (pscale ξ' x.q)
+  | none => pscale ξ x.p
+
+/-- the `s`-coefficient one position contributes to the combined commitment -/
+def stepS (c : LComm F) (x : CRep F) (ξ ξ' : F) : F :=
+  match c.bound with
+  | some _ => ξ * x.ρ + ξ' * x.ρ'
+  | none => ξ * x.ρ
+
+/-- the error of one position's claim, weighted by its challenges:
+`ξ·(p(z) − v)` (+ `ξ′·(q(z) − v·z^{s−b})` under the bound `b`) -/
+def stepClaim (vk : VK F) (z : F) (c : LComm F) (x : CRep F) (v ξ ξ' : F) : F :=
+  match c.bound with
+  | some b => ξ * (evalPoly x.p z - v) + ξ' * (evalPoly x.q z - v * fpow z (supportedDegree vk - b))
+  | none => ξ * (evalPoly x.p z - v)
+
+theorem stepClaim_eq (vk : VK F) (z : F) (c : LComm F) (x : CRep F) (v ξ ξ' : F) :
+    stepClaim vk z c x v ξ ξ' = evalPoly (stepG c x ξ ξ') z - stepErr vk z c v ξ ξ' := by
+  unfold stepClaim stepG stepErr
+  cases c.bound with
+  | none => simp only [eval_pscale]; ring
+  | some b => simp only [eval_padd, eval_pscale]; ring
+
+/-- the `G`-coefficients of the combined commitment: `Σⱼ ξⱼ·pⱼ + ξ′ⱼ·qⱼ` -/
+def accG : List (LComm F) → List (CRep F) → List F → F → List F → List F
+  | c :: cs, x :: xs, _ :: vs, cur, ξ' :: ξ'' :: rest => padd (stepG c x cur ξ') (accG cs xs vs ξ'' rest)
+  | _, _, _, _, _ => []
+
+/-- the `s`-coefficient of the combined commitment: `Σⱼ ξⱼ·ρⱼ + ξ′ⱼ·ρ′ⱼ` -/
+def accS : List (LComm F) → List (CRep F) → List F → F → List F → F
+  | c :: cs, x :: xs, _ :: vs, cur, ξ' :: ξ'' :: rest => stepS c x cur ξ' + accS cs xs vs ξ'' rest
+  | _, _, _, _, _ => 0
+
+/-- the combined claim error `Σⱼ ξⱼ·(pⱼ(z) − vⱼ) + ξ′ⱼ·(qⱼ(z) − vⱼ·z^{s−bⱼ})` -/
+def accClaim (vk : VK F) (z : F) : List (LComm F) → List (CRep F) → List F → F → List F → F
+  | c :: cs, x :: xs, v :: vs, cur, ξ' :: ξ'' :: rest =>
+    stepClaim vk z c x v cur ξ' + accClaim vk z cs xs vs ξ'' rest
+  | _, _, _, _, _ => 0
+
+/-- the combined claim error is the combined polynomial at `z` minus the combined value
+(`IPA.valueErr … vs` is the verifier's combined value `Σⱼ ξⱼ·vⱼ + ξ′ⱼ·vⱼ·z^{s−bⱼ}`) -/
+theorem accClaim_eq (vk : VK F) (z : F) :
+    ∀ (cs : List (LComm F)) (xs : List (CRep F)) (vs : List F) (cur : F) (ξs : List F),
+      cs.length = xs.length →
+      accClaim vk z cs xs vs cur ξs = evalPoly (accG cs xs vs cur ξs) z - valueErr vk z cs vs cur ξs := by
+  intro cs
+  induction cs with
+  | nil => intro xs vs cur ξs _; simp [accClaim, accG, valueErr]
+  | cons c cs ih =>
+    intro xs vs cur ξs hl
+    cases xs with
+    | nil => simp at hl
+    | cons x xs =>
+      cases vs with
+      | nil => simp [accClaim, accG, valueErr]
+      | cons v vs =>
+        match ξs with
+        | [] => simp [accClaim, accG, valueErr]
+        | [_] => simp [accClaim, accG, valueErr]
+        | ξ' :: ξ'' :: rest =>
+          simp only [accClaim, accG, valueErr, eval_padd, stepClaim_eq]
+          rw [ih xs vs ξ'' rest (by simpa using hl)]
+          ring
+
+/-- the coefficients with which the statement challenges enter the combined claim error, in the order in which
+the challenges are squeezed: `pⱼ(z) − vⱼ`, then `qⱼ(z) − vⱼ·z^{s−bⱼ}` (`0` at a position without bound, whose
+second challenge is squeezed and not used) -/
+def claimCoeffs (vk : VK F) (z : F) : List (LComm F) → List (CRep F) → List F → List F
+  | c :: cs, x :: xs, v :: vs =>
+    stepClaim vk z c x v 1 0 :: stepClaim vk z c x v 0 1 :: claimCoeffs vk z cs xs vs
+  | _, _, _ => []
+
+theorem stepClaim_linear (vk : VK F) (z : F) (c : LComm F) (x : CRep F) (v ξ ξ' : F) :
+    stepClaim vk z c x v ξ ξ' = stepClaim vk z c x v 1 0 * ξ + stepClaim vk z c x v 0 1 * ξ' := by
+  unfold stepClaim
+  cases c.bound with
+  | none => simp only; ring
+  | some b => simp only; ring
+
+/-- **the combined claim error is ONE linear form in the statement challenges**, with the coefficients
+`claimCoeffs` that are fixed by the statement and the representations -/
+theorem accClaim_eq_dot (vk : VK F) (z : F) :
+    ∀ (cs : List (LComm F)) (xs : List (CRep F)) (vs : List F) (cur : F) (ξs : List F),
+      2 * cs.length ≤ ξs.length →
+      accClaim vk z cs xs vs cur ξs = dot (claimCoeffs vk z cs xs vs) (cur :: ξs) := by
+  intro cs
+  induction cs with
+  | nil => intro xs vs cur ξs _; simp [accClaim, claimCoeffs]
+  | cons c cs ih =>
+    intro xs vs cur ξs hl
+    cases xs with
+    | nil => simp [accClaim, claimCoeffs]
+    | cons x xs =>
+      cases vs with
+      | nil => simp [accClaim, claimCoeffs]
+      | cons v vs =>
+        match ξs with
+        | [] => simp at hl
+        | [_] => simp at hl; omega
+        | ξ' :: ξ'' :: rest =>
+          simp only [accClaim, claimCoeffs, dot]
+          rw [ih xs vs ξ'' rest (by simp at hl ⊢; omega), stepClaim_linear]
+          ring
+
+theorem stepClaim_one_zero (vk : VK F) (z : F) (c : LComm F) (x : CRep F) (v : F) :
+    stepClaim vk z c x v 1 0 = evalPoly x.p z - v := by
+  unfold stepClaim
+  cases c.bound with
+  | none => simp only; ring
+  | some b => simp only; ring
+
+/-- the coefficient of the first challenge of position `j` is the error `pⱼ(z) − vⱼ` of the plain claim -/
+theorem claimCoeffs_even (vk : VK F) (z : F) :
+    ∀ (cs : List (LComm F)) (xs : List (CRep F)) (vs : List F) (j : Nat) (_ : j < cs.length)
+      (h1 : j < xs.length) (h2 : j < vs.length),
+      (claimCoeffs vk z cs xs vs).getD (2 * j) 0 = evalPoly xs[j].p z - vs[j] := by
+  intro cs
+  induction cs with
+  | nil => intro xs vs j h0; simp at h0
+  | cons c cs ih =>
+    intro xs vs j h0 h1 h2
+    cases xs with
+    | nil => simp at h1
+    | cons x xs =>
+      cases vs with
+      | nil => simp at h2
+      | cons v vs =>
+        cases j with
+        | zero => simp [claimCoeffs, stepClaim_one_zero]
+        | succ j =>
+          have e : 2 * (j + 1) = (2 * j + 1) + 1 := by ring
+          simp only [claimCoeffs, e, List.getD_cons_succ, List.getElem_cons_succ]
+          exact ih xs vs j (by simpa using h0) (by simpa using h1) (by simpa using h2)
+
+/-- one step of the verifier's combining loop on a represented commitment -/
+theorem accStep_rep (vk : VK F) (z : F) (c : LComm F) (x : CRep F) (v ξ ξ' C V C1 V1 : F)
+    (hx : CommRep vk.commKey vk.s c x)
+    (h : accStep vk z c v ξ ξ' C V = .ok (C1, V1)) :
+    C1 = C + (dot vk.commKey (stepG c x ξ ξ') + vk.s * stepS c x ξ ξ') ∧
+      V1 = V + stepErr vk z c v ξ ξ' := by
+  obtain ⟨hp, hq⟩ := hx
+  unfold accStep at h
+  unfold stepG stepS stepErr
+  split at h
+  · cases h
+  · rename_i hne
+    split at h
+    · rename_i b sc hb hsc
+      split at h
+      · cases h
+      · injection h with h; injection h with h1 h2
+        subst h1; subst h2
+        rw [hb]
+        simp only
+        rcases hq with hq | hq
+        · rw [hq] at hsc; cases hsc
+        · rw [hq] at hsc
+          injection hsc with hsc
+          rw [← hsc, hp, dot_padd_right, dot_pscale_right, dot_pscale_right]
+          constructor <;> ring
+    · rename_i hno
+      injection h with h; injection h with h1 h2
+      subst h1; subst h2
+      cases hb : c.bound with
+      | none =>
+        simp only
+        rw [hp, dot_pscale_right]
+        refine ⟨?_, trivial⟩
+        ring
+      | some b =>
+        cases hsc : c.comm.shifted with
+        | none => rw [hb, hsc] at hne; simp at hne
+        | some sc => exact absurd hsc (hno b sc hb)
+
+/-- **the verifier's combining loop on represented commitments**: the combined commitment is
+`⟨Σⱼ ξⱼ·pⱼ + ξ′ⱼ·qⱼ, G⟩ + (Σⱼ ξⱼ·ρⱼ + ξ′ⱼ·ρ′ⱼ)·s`, the combined value `Σⱼ ξⱼ·vⱼ + ξ′ⱼ·vⱼ·z^{s−bⱼ}` -/
+theorem accLoop_rep (vk : VK F) (z : F) :
+    ∀ (cs : List (LComm F)) (xs : List (CRep F)) (vs : List F) (cur : F) (ξs : List F)
+      (C V C' V' : F) (rest : List F), AllCommRep vk.commKey vk.s cs xs →
+      accLoop vk z cs vs cur ξs C V = .ok ((C', V'), rest) →
+      C' = C + (dot vk.commKey (accG cs xs vs cur ξs) + vk.s * accS cs xs vs cur ξs) ∧
+        V' = V + valueErr vk z cs vs cur ξs := by
+  intro cs
+  induction cs with
+  | nil =>
+    intro xs vs cur ξs C V C' V' rest _ h
+    simp only [accLoop] at h
+    injection h with h; injection h with h1 h2; injection h1 with h1 h3
+    subst h1; subst h3
+    simp [accG, accS, valueErr]
+  | cons c cs ih =>
+    intro xs vs cur ξs C V C' V' rest hx h
+    cases xs with
+    | nil => exact absurd hx (by simp [AllCommRep])
+    | cons x xs =>
+      cases vs with
+      | nil =>
+        simp only [accLoop] at h
+        injection h with h; injection h with h1 h2; injection h1 with h1 h3
+        subst h1; subst h3
+        simp [accG, accS, valueErr]
+      | cons v vs =>
+        simp only [accLoop] at h
+        split at h
+        · rename_i ξ' ξ'' rest'
+          split at h
+          · cases h
+          · rename_i C1 V1 hstep
+            obtain ⟨e1, e2⟩ := accStep_rep vk z c x v cur ξ' C V C1 V1 hx.1 hstep
+            obtain ⟨e3, e4⟩ := ih xs vs ξ'' rest' C1 V1 C' V' rest hx.2 h
+            simp only [accG, accS, valueErr, dot_padd_right]
+            rw [e3, e4, e1, e2]
+            constructor <;> ring
+        · cases h
+
+/-! ### the hiding adjustment -/
+
+/-- the hiding challenge `α` of a run (`0` when the proof carries no hiding commitment) -/
+def hidChal (π : Proof F) (ros : List F) : F := if π.hidingComm.isSome then ros.headD 0 else 0
+
+/-- the oracle outputs left after the hiding block -/
+def hidRest (π : Proof F) (ros : List F) : List F := if π.hidingComm.isSome then ros.tail else ros
+
+/-- the proof's hiding commitment, if there is one, is `⟨hp, G⟩ + hρ·s` -/
+def HidRep (G : List F) (s : F) (π : Proof F) (hp : List F) (hρ : F) : Prop :=
+  π.hidingComm = none ∨ π.hidingComm = some (dot G hp + s * hρ)
+
+theorem hidingAdjust_rep (vk : VK F) (π : Proof F) (C : F) (ros : List F) (C' : F) (ros1 : List F)
+    (hp : List F) (hρ : F) (hh : HidRep vk.commKey vk.s π hp hρ)
+    (h : hidingAdjust vk π C ros = .ok (C', ros1)) :
+    C' = C + (dot vk.commKey (pscale (hidChal π ros) hp)
+              + vk.s * (hidChal π ros * hρ - π.rand.getD 0)) ∧
+      ros1 = hidRest π ros := by
+  unfold hidingAdjust at h
+  unfold hidChal hidRest
+  split at h
+  · cases h
+  · rename_i hne
+    split at h
+    · rename_i hc rd hhc hrd
+      split at h
+      · cases h
+      · rename_i α ros'
+        injection h with h; injection h with h1 h2
+        subst h1; subst h2
+        rcases hh with hh | hh
+        · rw [hh] at hhc; cases hhc
+        · rw [hh] at hhc
+          injection hhc with hhc
+          rw [hh, hrd, ← hhc, dot_pscale_right]
+          simp only [Option.isSome_some, if_true, List.headD_cons, List.tail_cons, Option.getD_some]
+          constructor
+          · ring
+          · trivial
+    · rename_i hno
+      injection h with h; injection h with h1 h2
+      subst h1; subst h2
+      cases hhc : π.hidingComm with
+      | none =>
+        rw [hhc] at hne
+        cases hrd : π.rand with
+        | none => simp [dot_pscale_right]
+        | some rd => rw [hrd] at hne; simp at hne
+      | some hc =>
+        rw [hhc] at hne
+        cases hrd : π.rand with
+        | none => rw [hrd] at hne; simp at hne
+        | some rd => exact absurd hrd (hno hc rd hhc)
+
+/-- the representation over `(G, h′, s)` of the combined commitment of a run, after the hiding adjustment -/
+def runRep (cs : List (LComm F)) (xs : List (CRep F)) (vs : List F) (π : Proof F) (hp : List F) (hρ : F)
+    (cur : F) (ξs ros : List F) : Rep3 F :=
+  ⟨padd (accG cs xs vs cur ξs) (pscale (hidChal π ros) hp), 0,
+   accS cs xs vs cur ξs + (hidChal π ros * hρ - π.rand.getD 0)⟩
+
+/-- **what `succinct_check` computes on a represented statement**: the combined commitment is the element with
+the representation `runRep`, the combined value is `valueErr … vs`, the seed of the round challenges is the
+first oracle output after the hiding block, and the round challenges are non-zero. -/
+theorem succinctRun_rep (vk : VK F) (cs : List (LComm F)) (xs : List (CRep F)) (z : F) (vs : List F)
+    (π : Proof F) (hp : List F) (hρ : F) (cur : F) (ξs ros : List F) (r : Run F) (ξr ror : List F)
+    (hcs : AllCommRep vk.commKey vk.s cs xs) (hh : HidRep vk.commKey vk.s π hp hρ)
+    (hr : succinctRun vk cs z vs π (cur :: ξs) ros = .ok (r, ξr, ror)) :
+    r.C = rep3Val vk.commKey (vk.h * r.ξ₀) vk.s (runRep cs xs vs π hp hρ cur ξs ros) ∧
+      r.V = valueErr vk z cs vs cur ξs ∧
+      r.ξ₀ = (hidRest π ros).headD 0 ∧
+      r.lr = lrSum π.lVec π.rVec r.us ∧ (∀ u ∈ r.us, u ≠ 0) := by
+  obtain ⟨C, ros2, hacc, hadj, hvr⟩ := succinctRun_parts vk cs z vs π cur ξs ros r ξr ror hr
+  obtain ⟨e1, e2⟩ := accLoop_rep vk z cs xs vs cur ξs 0 0 C r.V ξr hcs hacc
+  obtain ⟨e3, e4⟩ := hidingAdjust_rep vk π C ros r.C _ hp hρ hh hadj
+  obtain ⟨e5, e6⟩ := verifyRounds_sound _ _ _ _ _ _ hvr
+  refine ⟨?_, by rw [e2]; ring, by rw [← e4]; rfl, e5, e6⟩
+  rw [e3, e1]
+  unfold rep3Val runRep
+  simp only [dot_padd_right]
+  ring
+
+/-- the slack of the combined commitment minus the combined value is the combined claim error plus the hiding
+polynomial's value at `z`, weighted by the hiding challenge -/
+theorem slack3_runRep (vk : VK F) (cs : List (LComm F)) (xs : List (CRep F)) (z : F) (vs : List F)
+    (π : Proof F) (hp : List F) (hρ : F) (cur : F) (ξs ros : List F) (hl : cs.length = xs.length) :
+    slack3 z (runRep cs xs vs π hp hρ cur ξs ros) - valueErr vk z cs vs cur ξs
+      = accClaim vk z cs xs vs cur ξs + hidChal π ros * evalPoly hp z := by
+  rw [accClaim_eq vk z cs xs vs cur ξs hl]
+  unfold slack3 runRep
+  simp only [eval_padd, eval_pscale]
+  ring
+
+/-! ### `batch_check`: one relation for the whole batch -/
+
+/-- the value of the relation vector of ONE run, whatever the defects are -/
+theorem rel3_val (vk : VK F) (z : F) (π : Proof F) (r : Run F) (P : Rep3 F) (Ls Rs : List (Rep3 F))
+    (hC : r.C = rep3Val vk.commKey (vk.h * r.ξ₀) vk.s P)
+    (hlr : r.lr = rep3Val vk.commKey (vk.h * r.ξ₀) vk.s (lrRep3 Ls Rs r.us)) :
+    rep3Val vk.commKey (vk.h * r.ξ₀) vk.s (rel3 P r.V Ls Rs r.us π.c z)
+      = defect1 vk z π r - π.c * defect2 vk π r.us := by
+  unfold defect1 defect2
+  rw [hC, hlr]
+  unfold rep3Val rel3
+  simp only [dot_padd_right, dot_pscale_right]
+  ring
+
+/-- sum of two representations -/
+def Rep3.add (x y : Rep3 F) : Rep3 F := ⟨padd x.G y.G, x.h + y.h, x.s + y.s⟩
+
+/-- scalar multiple of a representation -/
+def Rep3.smul (a : F) (x : Rep3 F) : Rep3 F := ⟨pscale a x.G, a * x.h, a * x.s⟩
+
+theorem rep3Val_add (G : List F) (h s : F) (x y : Rep3 F) :
+    rep3Val G h s (x.add y) = rep3Val G h s x + rep3Val G h s y := by
+  unfold rep3Val Rep3.add
+  simp only [dot_padd_right]
+  ring
+
+theorem rep3Val_smul (G : List F) (h s a : F) (x : Rep3 F) :
+    rep3Val G h s (x.smul a) = a * rep3Val G h s x := by
+  unfold rep3Val Rep3.smul
+  simp only [dot_pscale_right]
+  ring
+
+/-- one proof of a batch with everything the analysis needs: the point, the proof, the verifier's run, and the
+representations over `(G, h′ₖ, s)` (`h′ₖ = ξ₀ₖ·h`) of the combined commitment and of the `L`s and `R`s -/
+structure BatchItem (F : Type) where
+  z : F
+  π : Proof F
+  r : Run F
+  P : Rep3 F
+  Ls : List (Rep3 F)
+  Rs : List (Rep3 F)
+  deriving DecidableEq, Repr
+
+/-- the representations of an item are representations of what the verifier computed -/
+def ItemRep (vk : VK F) (it : BatchItem F) : Prop :=
+  it.r.C = rep3Val vk.commKey (vk.h * it.r.ξ₀) vk.s it.P ∧
+    it.r.lr = rep3Val vk.commKey (vk.h * it.r.ξ₀) vk.s (lrRep3 it.Ls it.Rs it.r.us)
+
+/-- the relation vector of one proof over the COMMON families `(G, h, s)`: `rel3` with its `h′ₖ`-coefficient
+multiplied by `ξ₀ₖ` -/
+def itemRel (it : BatchItem F) : Rep3 F :=
+  ⟨(rel3 it.P it.r.V it.Ls it.Rs it.r.us it.π.c it.z).G,
+   it.r.ξ₀ * (rel3 it.P it.r.V it.Ls it.Rs it.r.us it.π.c it.z).h,
+   (rel3 it.P it.r.V it.Ls it.Rs it.r.us it.π.c it.z).s⟩
+
+theorem itemRel_val (vk : VK F) (it : BatchItem F) (hrep : ItemRep vk it) :
+    rep3Val vk.commKey vk.h vk.s (itemRel it)
+      = defect1 vk it.z it.π it.r - it.π.c * defect2 vk it.π it.r.us := by
+  rw [← rel3_val vk it.z it.π it.r it.P it.Ls it.Rs hrep.1 hrep.2]
+  unfold rep3Val itemRel
+  ring
+
+/-- the relation vector of a batch, division-free: with `ρ₁ = 1, ρ₂, …` the randomizers of `batch_check` and
+`cₖ` the final coefficient of proof `k`, the second component is `Σₖ ρₖ·(Πⱼ≠ₖ cⱼ)·itemRelₖ`; the first is `Πₖ cₖ`.
+(Each proof's own equation `defect1ₖ = 0` contains `cₖ·Kₖ`, the batch equation contains `Σₖ ρₖ·Kₖ`; the weights
+`ρₖ·Πⱼ≠ₖ cⱼ` are what eliminates the prover's `Kₖ = final_comm_key` from all of them at once.  When every `cₖ ≠ 0`
+this is `Πₖ cₖ` times `Σₖ (ρₖ/cₖ)·itemRelₖ`.) -/
+def batchRel : F → List F → List (BatchItem F) → F × Rep3 F
+  | ρ, rs, it :: its =>
+    (it.π.c * (batchRel (rs.headD 0) rs.tail its).1,
+     ((itemRel it).smul (ρ * (batchRel (rs.headD 0) rs.tail its).1)).add
+       ((batchRel (rs.headD 0) rs.tail its).2.smul it.π.c))
+  | _, _, [] => (1, ⟨[], 0, 0⟩)
+
+/-- the value of the batch relation vector: `−(Πₖ cₖ)` times the randomizer-weighted sum of the final-key
+defects, provided every succinct check passed -/
+theorem batchRel_val (vk : VK F) :
+    ∀ (its : List (BatchItem F)) (ρ : F) (rs : List F),
+      (∀ it ∈ its, ItemRep vk it ∧ defect1 vk it.z it.π it.r = 0) →
+      rep3Val vk.commKey vk.h vk.s (batchRel ρ rs its).2
+        = -((batchRel ρ rs its).1
+            * KZG.wsum ρ rs (its.map fun it => defect2 vk it.π it.r.us)) := by
+  intro its
+  induction its with
+  | nil => intro ρ rs _; simp [batchRel, KZG.wsum, rep3Val]
+  | cons it its ih =>
+    intro ρ rs h
+    obtain ⟨hrep, hd1⟩ := h it (by simp)
+    have hrec := ih (rs.headD 0) rs.tail (fun x hx => h x (by simp [hx]))
+    simp only [batchRel, List.map_cons, KZG.wsum, rep3Val_add, rep3Val_smul]
+    rw [hrec, itemRel_val vk it hrep, hd1]
+    ring
+
+/-- `its` lists, proof by proof, what the loop of `batch_check` computes: the point of the group, the proof, and
+the run of `succinct_check` on the group's commitments and values, the sponge and the oracle being threaded
+from one proof to the next -/
+def BatchItems (vk : VK F) (comms : List (LComm F)) (evals : List ((Label × F) × F)) :
+    List (Label × (F × List Label)) → List (Proof F) → List F → List F → List (BatchItem F) → Prop
+  | g :: gs, π :: πs, ξs, ros, it :: its =>
+    it.z = g.2.1 ∧ it.π = π ∧
+      ∃ cs vs ξs' ros', gatherComms comms evals g.2.1 g.2.2 = .ok (cs, vs) ∧
+        succinctRun vk cs g.2.1 vs π ξs ros = .ok (it.r, ξs', ros') ∧
+        BatchItems vk comms evals gs πs ξs' ros' its
+  | _ :: _, _ :: _, _, _, [] => False
+  | _, _, _, _, its => its = []
+
+theorem batchSuccinct_items (vk : VK F) (comms : List (LComm F)) (evals : List ((Label × F) × F)) :
+    ∀ (gs : List (Label × (F × List Label))) (πs : List (Proof F)) (ξs ros : List F)
+      (its : List (BatchItem F)) (uss : List (List F)), πs.length = gs.length →
+      BatchItems vk comms evals gs πs ξs ros its →
+      batchSuccinct vk comms evals gs πs ξs ros = .ok (some uss) →
+      (∀ it ∈ its, defect1 vk it.z it.π it.r = 0) ∧
+        defect2s vk uss πs = its.map fun it => defect2 vk it.π it.r.us := by
+  intro gs
+  induction gs with
+  | nil =>
+    intro πs ξs ros its uss hl hits h
+    have hπ : πs = [] := List.eq_nil_of_length_eq_zero (by simpa using hl)
+    subst hπ
+    simp only [BatchItems] at hits
+    subst hits
+    simp only [batchSuccinct] at h
+    injection h with h; injection h with h
+    subst h
+    simp [defect2s]
+  | cons g gs ih =>
+    intro πs ξs ros its uss hl hits h
+    cases πs with
+    | nil => simp at hl
+    | cons π πs =>
+      cases its with
+      | nil => exact absurd hits (by simp [BatchItems])
+      | cons it its =>
+        obtain ⟨hz, hπ, cs, vs, ξs', ros', hg, hrun, hrest⟩ := hits
+        simp only [batchSuccinct] at h
+        split at h
+        · cases h
+        · rw [hg] at h
+          simp only [succinctCheck, hrun] at h
+          by_cases hd : defect1 vk g.2.1 π it.r = 0
+          · simp only [hd, if_true] at h
+            split at h
+            · cases h
+            · cases h
+            · rename_i uss' hrec
+              injection h with h; injection h with h
+              subst h
+              obtain ⟨e1, e2⟩ := ih πs ξs' ros' its uss' (by simpa using hl) hrest hrec
+              constructor
+              · intro x hx
+                rcases List.mem_cons.1 hx with rfl | hx
+                · rw [hz, hπ]; exact hd
+                · exact e1 x hx
+              · simp only [defect2s, List.map_cons, e2, hπ]
+          · simp only [hd, if_false] at h
+            cases h
+
+/-- an accepted batch: the loop went through with every succinct check passing and the randomized final-key test
+holds -/
+theorem batchCheck_accept (vk : VK F) (comms : List (LComm F)) (qs : List (Query F))
+    (evals : List ((Label × F) × F)) (πs : List (Proof F)) (ξs ros rs : List F)
+    (h : batchCheck vk comms qs evals πs ξs ros rs = .ok true) :
+    πs.length = (Marlin.groupQueries qs).length ∧
+      ∃ uss, batchSuccinct vk comms evals (Marlin.groupQueries qs) πs ξs ros = .ok (some uss) ∧
+        KZG.wsum 1 rs (defect2s vk uss πs) = 0 := by
+  unfold batchCheck at h
+  split at h
+  · cases h
+  · rename_i hl
+    have hl' : πs.length = (Marlin.groupQueries qs).length := by
+      by_contra hne; exact hl hne
+    refine ⟨hl', ?_⟩
+    cases hs : batchSuccinct vk comms evals (Marlin.groupQueries qs) πs ξs ros with
+    | error e => rw [hs] at h; cases h
+    | ok o =>
+      rw [hs] at h
+      cases o with
+      | none => simp [batchDecide] at h
+      | some uss =>
+        refine ⟨uss, rfl, ?_⟩
+        simp only [batchDecide] at h
+        injection h with h
+        rw [decide_eq_true_iff, batchDefect_eq] at h
+        exact h
+
+/-- the items of an accepted batch exist (with any representations attached) -/
+theorem batchSuccinct_items_exist (vk : VK F) (comms : List (LComm F)) (evals : List ((Label × F) × F)) :
+    ∀ (gs : List (Label × (F × List Label))) (πs : List (Proof F)) (ξs ros : List F)
+      (uss : List (List F)), πs.length = gs.length →
+      batchSuccinct vk comms evals gs πs ξs ros = .ok (some uss) →
+      ∃ its, BatchItems vk comms evals gs πs ξs ros its ∧ its.length = πs.length := by
+  intro gs
+  induction gs with
+  | nil =>
+    intro πs ξs ros uss hl _
+    have hπ : πs = [] := List.eq_nil_of_length_eq_zero (by simpa using hl)
+    subst hπ
+    exact ⟨[], by simp [BatchItems], rfl⟩
+  | cons g gs ih =>
+    intro πs ξs ros uss hl h
+    cases πs with
+    | nil => simp at hl
+    | cons π πs =>
+      simp only [batchSuccinct] at h
+      split at h
+      · cases h
+      · split at h
+        · cases h
+        · rename_i cs vs hg
+          unfold succinctCheck at h
+          cases hrun : succinctRun vk cs g.2.1 vs π ξs ros with
+          | error e => rw [hrun] at h; cases h
+          | ok x =>
+            obtain ⟨r, ξs', ros'⟩ := x
+            rw [hrun] at h
+            simp only at h
+            by_cases hd : defect1 vk g.2.1 π r = 0
+            · simp only [hd, if_true] at h
+              split at h
+              · cases h
+              · cases h
+              · rename_i uss' hrec
+                obtain ⟨its, hits, hlen⟩ := ih πs ξs' ros' uss' (by simpa using hl) hrec
+                exact ⟨⟨g.2.1, π, r, ⟨[], 0, 0⟩, [], []⟩ :: its,
+                  ⟨rfl, rfl, cs, vs, ξs', ros', hg, hrun, hits⟩, by simp [hlen]⟩
+            · simp only [hd, if_false] at h
+              cases h
+
 end IPA
 end PCV
